@@ -196,7 +196,7 @@ inline int log_main(int argc, char** argv, const char* owner)
                          rep.transitions.insert(mc::hash(c.json()));
                          bool any_enabled = false;
                          for (auto& st : c.prog)
-                             any_enabled = any_enabled || enabled(c.expr, c.t, st.sev);
+                             any_enabled = any_enabled || enabled(c.expr, c.t, st.sev, st.tagged);
                          if (any_enabled)
                              rep.nontrivial.insert(mc::hash(c.json()));
                          rep.outcomes.insert(mc::hash(ev_list(ref_program(c.expr, c.t, c.prog))));
@@ -218,7 +218,7 @@ inline int log_main(int argc, char** argv, const char* owner)
     auto rep = sh.run();
     rep.counters["compile_time_minimum"] = VP_MIN;
     rep.counters["cases_total"] = cs.size();
-    rep.notes["rule"] = "generated log programs per compile-time minimum: 14 filter expressions x threshold grids x 6 severities x tag/no tag x both "
+    rep.notes["rule"] = "generated log programs per compile-time minimum: 17 filter expressions (3 of them look at the tag) x threshold grids x 6 severities x tag/no tag x both "
                         "forms; threshold changes between statements; every item tuple of length <= 3 over 9 item kinds; every sequence of <= 3 "
                         "statements over 8 (also run from a destructor during stack unwinding); two overlapping named streams; non-trivial = cases with at least one enabled statement";
     mc::write_out(a, rep);
